@@ -224,7 +224,9 @@ inline bool flush_S(Rng& r, uint64_t idx)
     run.run_on(s, [wp, rp, sp, li, badp, od, first_time_involved]
                {
                  uint64_t const g0 = ticket();
+                 tl_control_op = true;
                  wp->loggers[li].lg->flush_log(0);
+                 tl_control_op = false;
                  // runs on the worker right after flush_log() returned; everything is serialised in mode S
                  std::vector<Issue const*> must;
                  for (auto const& o : rp->ws)
